@@ -72,7 +72,7 @@ def run_config(ctx, config, counts):
     w = ws.load(config)
     U = w.U
     ctx.configs.append(config)
-    outs, b, ev = G.summarize(U, G.HRU + "_fit", set())
+    outs, b, ev = G.summarize(U, G.HRU + "_fit", {"*"})
     bad = amount_only_compared(outs, ev, U)
     ctx.ob("amount-only-compared", config, not bad,
            "the selection uses the amount outside comparisons (%s): the finite order partition would not be complete" % bad, b["span"])
@@ -94,7 +94,7 @@ def run_config(ctx, config, counts):
             else:
                 louts, lb, lev = louts0, lb0, lev0
             if "HasRefUnit::_fit" in tov and q.kind == "ref":
-                outs, b, ev = G.summarize(U, G.HRU + "_fit", set(), overrides=tov)
+                outs, b, ev = G.summarize(U, G.HRU + "_fit", {"*"}, overrides=tov)
                 bad = amount_only_compared(outs, ev, U)
                 ctx.ob("amount-only-compared", inst0, not bad,
                        "the selection of %s uses the amount outside comparisons (%s)" % (q.path, bad), b["span"])
